@@ -5,11 +5,11 @@ CONSTANTS
   K = 2
   DtNum = 1
   DtDen = 4
-  Spots = {1,2,4}
+  Spots = {1,4}
   Vars = {1,4}
   Spots2 = {1}
   Configs <- PairCombos1
-  EmitMod = 97
+  EmitMod = 5
   EmitRes = 0
 INVARIANT NonAnticipative
 INVARIANT FeatureReadsSound
